@@ -70,6 +70,8 @@ func runGenEngines(c *Check, o genOpts) map[*ssa.Function]bool {
 	nCnt := counterPairs(c, "COUNTER-PAIR", in) + saturatingCounters(c, "COUNTER-PAIR", in)
 	c.Counts["counter_entry_deletes"] = nCnt
 	c.Okf("COUNTER-PAIR", "scan", "-", "%d reachable repository functions scanned for deletes from per-key nesting counters: %d found and evaluated", len(in), nCnt)
+	c.Counts["short_circuited_calls_in_loops"] = skippedEffects(c, "SKIPPED-EFFECT", in)
+	c.Okf("SKIPPED-EFFECT", "scan", "-", "%d reachable repository functions scanned for `flag = flag || f(x)` in loops: %d found and evaluated", len(in), c.Counts["short_circuited_calls_in_loops"])
 	c.Counts["block_walkers"] = blockKindsAgree(c, "BLOCK-KINDS", in)
 	c.Okf("BLOCK-KINDS", "scan", "-", "%d reachable repository functions scanned for functions that distinguish two or more block kinds: %d found and evaluated", len(in), c.Counts["block_walkers"])
 	c.Counts["goroutines_started_in_loops"] = goroutineLoopVars(c, "GOROUTINE-LOOPVAR", in)
@@ -1376,6 +1378,108 @@ func memoOnFailure(c *Check, rule string, fns map[*ssa.Function]bool) int {
 				c.Cond(!bad, rule, key, p.pos(i.Pos()), "no path leads from filing the entry to a non-nil error return", detail)
 			})
 		}
+	}
+	return n
+}
+
+// skippedEffects (SKIPPED-EFFECT): `done = done || f(x)` inside a loop, where f
+// changes what it is given: once one element made the flag true, f is not called
+// for the remaining elements and their part of the work is silently left out
+// (the intended form evaluates f first: `done = f(x) || done`). Matched on SSA: a
+// loop-carried bool whose update is a phi of the constant true, on the edge taken
+// when the flag is already set, and the result of a call made on the other edge;
+// the callee (a repository function) writes through a parameter, directly or in
+// a function it calls.
+func skippedEffects(c *Check, rule string, fns map[*ssa.Function]bool) int {
+	p := c.P
+	var list []*ssa.Function
+	for f := range fns {
+		list = append(list, f)
+	}
+	sort.Slice(list, func(i, j int) bool { return fnName(list[i]) < fnName(list[j]) })
+	writesMemo := map[*ssa.Function]int{}
+	var writes func(f *ssa.Function, d int) bool
+	writes = func(f *ssa.Function, d int) bool {
+		if f == nil || len(f.Blocks) == 0 || !isRepoFn(f) || d > 3 {
+			return false
+		}
+		if v, ok := writesMemo[f]; ok {
+			return v == 1
+		}
+		writesMemo[f] = 0
+		res := false
+		eachInstr(f, func(_ *ssa.BasicBlock, i ssa.Instruction) {
+			var addr ssa.Value
+			switch x := i.(type) {
+			case *ssa.Store:
+				addr = x.Addr
+			case *ssa.MapUpdate:
+				addr = x.Map
+			case *ssa.Call:
+				if h := normFn(p, x.Call.StaticCallee()); h != nil && h != f && writes(h, d+1) {
+					res = true
+				}
+				return
+			default:
+				return
+			}
+			for _, r := range rootsOf(addr) {
+				if r.Kind == rParam || r.Kind == rFree || r.Kind == rGlobal {
+					res = true
+				}
+			}
+		})
+		if res {
+			writesMemo[f] = 1
+		}
+		return res
+	}
+	n := 0
+	for _, f := range list {
+		if p.isGeneratedFile(p.fnFile(f)) {
+			continue
+		}
+		eachInstr(f, func(b *ssa.BasicBlock, i ssa.Instruction) {
+			ph, ok := i.(*ssa.Phi)
+			if !ok || !isBoolType(ph.Type()) || len(ph.Edges) != 2 || len(enclosingLoop(b)) == 0 {
+				return
+			}
+			// one edge: constant true coming from a block that branches on the carried flag
+			for k := 0; k < 2; k++ {
+				if !isConstBool(ph.Edges[k], true) {
+					continue
+				}
+				call, ok := ph.Edges[1-k].(*ssa.Call)
+				if !ok {
+					continue
+				}
+				pred := b.Preds[k]
+				iff, ok := pred.Instrs[len(pred.Instrs)-1].(*ssa.If)
+				if !ok {
+					continue
+				}
+				flag, ok := iff.Cond.(*ssa.Phi)
+				if !ok {
+					continue
+				}
+				// the flag is carried round the loop and updated by ph
+				carried := false
+				for _, e := range flag.Edges {
+					if e == ssa.Value(ph) {
+						carried = true
+					}
+				}
+				callee := normFn(p, call.Call.StaticCallee())
+				if !carried || callee == nil {
+					continue
+				}
+				n++
+				key := fmt.Sprintf("%s|%s is called for every element", fnName(f), fnName(callee))
+				c.Cond(!writes(callee, 0), rule, key, p.pos(call.Pos()),
+					"the call skipped once the flag is set has no effect on what it is given",
+					fmt.Sprintf("`flag = flag || %s(…)` in a loop: once one element set the flag, %s — which writes through its arguments — is no longer called for the remaining elements", callee.Name(), callee.Name()))
+			}
+		})
 	}
 	return n
 }
